@@ -930,7 +930,7 @@ void convertSZParamsToBytes(sz_params* params, unsigned char* result)
 		break;
 	case PSNR:
 		floatToBytes(&result[6], (float)(params->psnr));
-		memset(&result[9], 0, 4);
+		memset(&result[10], 0, 4);
 		break;
 	case ABS_AND_PW_REL:
 	case ABS_OR_PW_REL:
@@ -950,6 +950,7 @@ void convertSZParamsToBytes(sz_params* params, unsigned char* result)
    
     //compressor
     result[14] = (unsigned char)params->sol_ID;
+    result[15] = 0; //reserved (formerly segment_size); must not be left uninitialized
     
     //int16ToBytes_bigEndian(&result[14], (short)(params->segment_size));
     
